@@ -787,6 +787,9 @@ func runC02(c *Ctx) {
 	fromIn := cg.reachableFrom([]*ssa.Function{r.in, r.inEntry, r.routerIn}, func(e cgEdge) bool { return pkgOf(e.To) == "vnet" && e.Kind != "ref" })
 	isRefresh := func(in ssa.Instruction) bool { return isFieldStore(in, mapT, mExp) }
 	for _, f := range p.Funcs {
+		if isPrivateHelper(f) && !unitExclude[f] {
+			continue // analysed as part of the functions that call it
+		}
 		if pkgOf(f) != "vnet" {
 			continue
 		}
@@ -993,6 +996,9 @@ func runC02(c *Ctx) {
 		o.Fail(r.out.Pos(), "computation of the external port (base + counter mod span) not found")
 	}
 	for _, f := range p.Funcs {
+		if isPrivateHelper(f) && !unitExclude[f] {
+			continue // analysed as part of the functions that call it
+		}
 		if pkgOf(f) != "vnet" {
 			continue
 		}
